@@ -2256,6 +2256,9 @@ TopologyKernel::adjacent_halfface_in_cell(HalfFaceHandle _halfFaceHandle,
   // Make sure that _halfFaceHandle is incident to _halfEdgeHandle
   bool skipped = false;
   HalfFaceHandle idx = InvalidHalfFaceHandle;
+  // the opposite halfface, if it belongs to the cell too: the answer only when
+  // the cell has no other halfface at this edge
+  HalfFaceHandle oppositeInCell = InvalidHalfFaceHandle;
 
   // For face-selfadjacent cells, we have to ensure the actual halfedge information
   // is used here, BUT...
@@ -2289,6 +2292,9 @@ TopologyKernel::adjacent_halfface_in_cell(HalfFaceHandle _halfFaceHandle,
       for (const auto heh: hf_cur.halfedges()) {
         // For face-selfadjacent cells, we look for a halfface that
         // contains the opposite halfedge but isnt the opposite halfface
+        if(opposite_halfedge_handle(heh) == _halfEdgeHandle && hfh == opposite_halfface_handle(_halfFaceHandle)) {
+          oppositeInCell = hfh;
+        }
         if(opposite_halfedge_handle(heh) == _halfEdgeHandle && hfh != opposite_halfface_handle(_halfFaceHandle)) {
           if (idx.is_valid()) {
             // we found two(!) other halffaces that contain the given edge.
@@ -2304,6 +2310,11 @@ TopologyKernel::adjacent_halfface_in_cell(HalfFaceHandle _halfFaceHandle,
         }
       }
     }
+  }
+  if (!idx.is_valid() && skipped) {
+    // A cell that contains both halffaces of the face and no other halfface
+    // at this edge: across the edge lies the opposite halfface.
+    return oppositeInCell;
   }
   return InvalidHalfFaceHandle;
 }
